@@ -67,7 +67,8 @@ def contexts(spec, tier):
           ("warmed", dict(warm=2, ctx_seed=spec["n"] + 5), {"PYTHONHASHSEED": "0"}),
           ("perturbed-global-rng", dict(perturb_rng=True, ctx_seed=spec["n"] + 77), {"PYTHONHASHSEED": "0"}),
           ("batch-permuted", dict(batch=[2, "TARGET", 1] if spec["n"] % 2 else [1, 2, "TARGET"]), {"PYTHONHASHSEED": "0"}),
-          ("after-near-duplicate-meters", dict(near_dups=6, ctx_seed=spec["n"] + 31), {"PYTHONHASHSEED": "0"})]
+          ("after-near-duplicate-meters", dict(near_dups=6, ctx_seed=spec["n"] + 31), {"PYTHONHASHSEED": "0"}),
+          ("model-object-reused-after-another-meter", dict(reuse_model_object=True), {"PYTHONHASHSEED": "0"})]
     if not q:
         cs += [("threads-unset", dict(), {"OMP_NUM_THREADS": None, "OPENBLAS_NUM_THREADS": None, "MKL_NUM_THREADS": None, "PYTHONHASHSEED": "0"}),
                ("combined", dict(warm=4, perturb_rng=True, ctx_seed=spec["n"] + 9, batch=["TARGET", 2, 1]), dict(T4, PYTHONHASHSEED="random"))]
